@@ -199,7 +199,8 @@ def table_spec(dmin=2, dmax=6, nmin=50, nmax=1000, kinds=MARGINALS, constant=Tru
             'marginals': margs,
             'n': draw(st.integers(nmin, nmax)),
             'seed': draw(SEEDS),
-            'constant_cols': draw(st.lists(st.integers(0, d - 1), max_size=1 if constant else 0, unique=True))
+            # up to two constant columns (never all columns)
+            'constant_cols': draw(st.lists(st.integers(0, d - 1), max_size=min(2, d - 1) if constant else 0, unique=True))
             if constant else [],
             'names': draw(st.sampled_from(['str', 'int', 'mixed', 'rev'])),
         }
